@@ -178,9 +178,12 @@ def _select(case, V, st):
             F = os.path.join(d, 'f%d' % k)
             os.makedirs(F)
             shutil.copy(os.path.join(pool, 'initParams.json'), F)
-            for tt in sub:
+            # the files of the latest time are created FIRST and carry the OLDEST modification time: "latest" means the largest
+            # time in the name, not the file written or touched last (a checkpoint may be rewritten or copied later)
+            for age, tt in enumerate(sorted(sub, reverse=True)):
                 for nm in ('grid', 'phi'):
-                    shutil.copy(os.path.join(pool, '%s_%06d.h5' % (nm, tt)), F)
+                    dst = shutil.copy(os.path.join(pool, '%s_%06d.h5' % (nm, tt)), F)
+                    os.utime(dst, (1.6e9 + 1000 * age, 1.6e9 + 1000 * age))
             digits = len(set(len(str(x)) for x in sub)) > 1
             for rg in ([1, 1], [2, 1]):
                 def rfn(r):
